@@ -309,6 +309,9 @@ def judge(res, trace, verdict, seed, tier):
         if key in seen:
             continue
         seen.add(key)
+        if len(seen) > 25:  # the first 25 get replay files, the rest is only counted
+            verdict.violations.append({"what": f"{v['kind']}: {v['a']} / {v['b']}", "replay": verdict.violations[-1]["replay"]})
+            continue
         owners = {v["a"], v["b"]} if v["kind"].endswith("collision") or v["kind"] == "value_of_other_query" else {v["a"]}
         vp.log(f"[C14] {v['kind']}: {v['a']} / {v['b']} ({v['id']})")
         verdict.violation(f"{v['kind']}: {v['a']} / {v['b']}", {
